@@ -14,6 +14,7 @@ def _tie(r):
         return
     # model verdicts, one N per case, in order (0 = refused/error, n+1 = accepted with value n, bools as 0/1)
     terms = []
+    pre_terms = []
     kept = []
     for c in cases:
         p, g = c["param"], c["guard"]
@@ -28,17 +29,21 @@ def _tie(r):
             terms.append("b2n (enc_ok 0 (box_chain %d))" % p["k"])
         elif g == "macro":
             terms.append("b2n (macro_verdict %d)" % p["k"])
-        elif g == "refuted":
-            terms.append("vcode (validate_size 1 %s 4294967296)" % _coq_list(p["dims"]))
+        elif g == "regression":
+            terms.append("vcode (validate_size %d %s %d)" % (p["es"], _coq_list(p["dims"]), p["limit"]))
+            pre_terms.append("vcode (validate_size_pre %d %s %d)" % (p["es"], _coq_list(p["dims"]), p["limit"]))
         else:
             continue
         kept.append(c)
     text = ("From Coq Require Import List NArith Arith. Import ListNotations.\n"
             "From UV Require Import Model.Limits.\n"
             "Definition b2n (b : bool) : N := if b then 1%%N else 0%%N.\n"
-            "Eval vm_compute in [\n%s\n].\n" % ";\n".join(terms))
+            "Eval vm_compute in ([\n%s\n] ++ [\n%s\n]).\n" % (";\n".join(terms), ";\n".join(pre_terms)))
     rc2, o = coq_eval("c09_tie", text, timeout=600)
     model = coq_ints(o) if rc2 == 0 else []
+    pre_model, model = model[len(kept):], model[:len(kept)]
+    if pre_model and any(x != 1 for x in pre_model):
+        r.broken_obligation("tie:refuted_pre", "the model of the old size guard no longer accepts the regression witnesses", str(pre_model))
     if rc2 != 0 or len(model) != len(kept):
         r.broken_obligation("tie-eval", "Coq evaluation of the guard models failed", o[-1500:])
         return
@@ -46,16 +51,9 @@ def _tie(r):
     for c, m in zip(kept, model):
         g, kind, msg = c["guard"], c["kind"], c["msg"]
         by_guard[g] = by_guard.get(g, 0) + 1
-        if g == "refuted":
-            # the model accepts (a zero dimension); the implementation then multiplies the dimensions
-            if m != 1:
-                mism.append((c, m, "the model no longer accepts the witness of size_guard_refuted"))
-            if kind == "crashed" and "overflow" in msg:
-                confirmed.append(c["src"])
-            continue
         if kind == "ok":
             accepted += 1
-            if g == "size":
+            if g in ("size", "regression"):
                 try:
                     impl = int(msg.strip()) + 1
                 except ValueError:
@@ -65,25 +63,19 @@ def _tie(r):
         elif kind == "err":
             refused += 1
             impl = 0
-            expect = {"size": "too large", "recursion": "Recursion limit", "nodedepth": "too complex",
+            expect = {"size": "too large", "regression": "too large", "recursion": "Recursion limit", "nodedepth": "too complex",
                       "binary": "too deep", "macro": "recur too deep"}[g]
             if expect not in msg and not (g == "nodedepth" and "signature" in msg):
                 impl = -2          # an error, but not the guard's
         else:
             impl = -3              # crash / hang: not a verdict of the guard
-            if g == "size" and m == 1 and kind == "crashed" and "overflow" in msg:
-                # accepted by the guard (zero dimension), then the caller's product overflowed: size_guard_refuted
-                confirmed.append(c["src"])
-                continue
         if impl != m:
             mism.append((c, m, "implementation says %s (%s %s)" % (impl, kind, msg[:80])))
     r.coverage["tie"] = {"kind": "C", "cases": len(kept), "by_guard": by_guard, "accepted": accepted, "refused": refused,
-                         "mismatches": len(mism), "size_guard_refuted_confirmed_on": confirmed}
+                         "mismatches": len(mism), "regression_witnesses_refused": [c["src"] for c in kept if c["guard"] == "regression" and c["kind"] == "err"]}
     for c in kept[:1] + kept[12:13] + kept[-3:-2]:
         r.sample({"guard": c["guard"], "param": c["param"], "impl": c["kind"], "msg": c["msg"][:60]})
-    r.log("tie: %d guard boundary cases, %d mismatches; size_guard_refuted confirmed on %d programs" % (len(kept), len(mism), len(confirmed)))
-    if not confirmed:
-        r.notes.append("size_guard_refuted: the witness shapes no longer make the implementation overflow (callers repaired?)")
+    r.log("tie: %d guard boundary cases, %d mismatches" % (len(kept), len(mism)))
     if mism:
         c, m, why = mism[0]
         r.broken_obligation("tie:Limits.v~guards", "model and implementation disagree on a guard boundary (%d of %d): %s %s: model %s, %s"
